@@ -154,3 +154,6 @@ func sortedKeys(m map[string]int) []string {
 }
 
 var _ = strings.TrimSpace
+
+type protoreflectFD = protoreflect.FieldDescriptor
+type protoreflectValue = protoreflect.Value
